@@ -303,7 +303,11 @@ pub fn main(modules: &'static [&'static Module]) -> ! {
         } else {
             String::new()
         };
-        if msg.contains("unsafe precondition") || msg.contains("cannot unwind") {
+        if msg.contains("unsafe precondition")
+            || msg.contains("cannot unwind")
+            || msg.contains("invalid value")
+            || msg.contains("invalid enum")
+        {
             let (run, module) = CUR.with(|c| c.get());
             eprintln!("FATAL-UB run={} module={} msg={}", run as i64, module, msg);
         }
